@@ -16,7 +16,8 @@ RULE = ("every statement kind (and pairs of kinds) as the body of a FOR loop of 
         "must end normally (implementation only: the model's association-list store makes such runs too slow), the same bodies with 2500 "
         "iterations on model and implementation; GOSUB / FN recursion, abandoned FOR frames, 65537 variables, 65537 DATA constants and a "
         "65537-instruction program must each end in OUT OF MEMORY and leave the session usable; zeroing variables at the variable limit "
-        "must free their slots; non-trivial = every case (each drives a pool to a limit or through >= 2500 iterations); distinct = case lines")
+        "must free their slots; INPUT / INKEY$ statements completed 12 times with refused and accepted replies, then a recursion-depth probe "
+        "(the stack must still take 65535 entries); non-trivial = every case (each drives a pool to a limit or through >= 2500 iterations); distinct = case lines")
 ASSUMPTIONS = ["real memory is not measured: the bounds are element counts of the value stack, variable map, code and data vectors"]
 EXHAUSTIVE = {"quick": False, "thorough": False}
 
@@ -67,6 +68,21 @@ def gen(tier, rng):
                 calls = ["R5000"] + [sess.E(l) for l in prog] + [sess.E("RUN"), "R50000", "R50000", "R50000", sess.E("PRINT 7"), "R5000"]
                 cases.append(Case(sess.session(calls), sig="%d x [%s]%s" % (n, body, " in a subroutine" if in_sub else ""), tag="leak-%d" % n,
                                   side=side, meta=("leak", body)))
+    # statements that wait for the terminal (INPUT, INKEY$), completed k times with refused and accepted replies; what they
+    # left on the value stack is measured afterwards by recursing until OUT OF MEMORY: the depth reached must be the depth a
+    # fresh run reaches (65535 minus nothing)
+    probe = ["100 N=N+1:GOSUB 100"]
+    for body, replies in (("INPUT A,B", ["1,2,3", "1,2"]), ("INPUT A,B", ["1", "1,2,3,4", "5,6"]), ("INPUT A$,B$,C", ['"a,b",c,x,3', 'p,q,7']),
+                          ("INPUT A", ["x", "4"]), ('INPUT "p";A$', ["a,b,c"]), ("A$=INKEY$", ["k"]), ("INPUT A(1),B", ["1,2,3", "3,4"]), ("GOSUB 900", [])):
+        for k in (0, 12):
+            prog = ["10 K=K+1:IF K>%d THEN 100" % k, "20 %s" % body, "30 GOTO 10", "900 RETURN"] + probe
+            calls = ["R5000"] + [sess.E(l) for l in prog] + [sess.E("RUN"), "R5000"]
+            for _ in range(k):
+                for rep in replies:
+                    calls += ["A5000:" + sess.hx(rep)]
+            calls += ["R2000000", "R2000000", sess.E("PRINT N"), "R5000", sess.E("PRINT 7"), "R5000"]
+            cases.append(Case(sess.session(calls), sig="depth probe after %d x [%s] answered %s" % (k, body, replies), tag="probe", side="impl",
+                              meta=("probe", body, k)))
     # pools past their limit
     limit = []
     limit.append(("GOSUB recursion", ["10 GOSUB 10"], 7))
@@ -125,6 +141,14 @@ def monitor(case, r):
             return "limit: %s must end in OUT OF MEMORY, got %s" % (case.sig, sess.decode_events("|".join(ev))[-300:])
         if "TIMEOUT" in ev:
             return "limit: %s does not terminate" % case.sig
+    elif m[0] == "probe":
+        import re
+        nums = re.findall(r"\n (\d+) \n", "\n" + text)
+        if not any(e.startswith("E:[7 ") for e in errs) or not nums:
+            return "probe: %s: the recursion must end in OUT OF MEMORY and PRINT N must answer: %s" % (case.sig, sess.decode_events("|".join(ev))[-300:])
+        depth = int(nums[0])
+        if not 65000 < depth <= 65536:
+            return "probe: %s: the stack took %d entries before OUT OF MEMORY, expected about 65535" % (case.sig, depth)
     elif m[0] == "zero":
         if not any(e.startswith("E:[7 30") for e in errs):
             return "zero: filling the variable pool must end in OUT OF MEMORY in line 30: %s" % sess.decode_events("|".join(ev))[-300:]
@@ -135,6 +159,30 @@ def monitor(case, r):
     if not usable:
         return "unusable: after %s the next line was not executed: %s" % (case.sig, sess.decode_events("|".join(ev))[-300:])
     return None
+
+
+def probe_depth(r):
+    import re
+    ev = transcript.after_first_stop(transcript.split_events(r))
+    nums = re.findall(r"\n (\d+) \n", "\n" + transcript.printed_text(ev))
+    return int(nums[0]) if nums else None
+
+
+def cross_monitor(cases, impl, model):
+    """the depth the stack still takes after k completed statements must be the depth it takes after none"""
+    fails = []
+    base = {}
+    for i, c in enumerate(cases):
+        if c.meta and c.meta[0] == "probe" and c.meta[2] == 0 and impl[i] is not None:
+            base[c.meta[1] + c.sig.split("answered")[1]] = probe_depth(impl[i])
+    for i, c in enumerate(cases):
+        if c.meta and c.meta[0] == "probe" and c.meta[2] > 0 and impl[i] is not None:
+            b = base.get(c.meta[1] + c.sig.split("answered")[1])
+            d = probe_depth(impl[i])
+            if b is not None and d is not None and b != d:
+                fails.append((i, "probe: %s: the stack takes %d more entries, after no such statement it takes %d: each completed statement left %.2f values behind"
+                              % (c.sig, d, b, (b - d) / float(c.meta[2]))))
+    return fails
 
 
 def nontrivial(case, r):
